@@ -16,6 +16,12 @@
 //!   hq A B    -> `hq <bool>`    the two values have the same hash (fixed-key hasher)
 //!   key A B   -> `key <(hash-contains? (hash A 0) B)> <(hashset-contains? (hashset A) B)>`
 //!   coll SRC  -> `coll <Display of the value of SRC>` or `coll err`
+//!   gm new | insert K V | remove K | ref K | contains K | len     a hash map KEYED BY DEFINED VALUES (collections as keys);
+//!   gm union K V .. | unionr K V ..   `(hash-union gm (hash K V ..))` / the literal on the left
+//!   gs new | insert K | contains K | len                           V is an integer literal
+//!   gs union|inter|diff|subset K..  (and unionr|interr|diffr|subsetr: the literal on the left)
+//!             the set algebra of the set register against the literal `(hashset K..)`
+//!             -> `gm <len>` after an update, `gm ok <v>` / `gm err` for ref, `gm true|false`, `gm <len>`
 //!   reset     -> `reset` (forgets the names; the engine is kept)
 //! A panic in the real code is caught and printed as `panic <msg>` for that line.
 use std::collections::hash_map::DefaultHasher;
@@ -319,6 +325,63 @@ impl H {
                 let m = self.truth(format!("(hash-contains? (hash {a} 0) {b})"))?;
                 let s = self.truth(format!("(hashset-contains? (hashset {a}) {b})"))?;
                 Ok(format!("key {m} {s}"))
+            }
+            [reg @ ("gm" | "gs"), op, args @ ..] => {
+                let algebra = matches!(*op, "union" | "unionr" | "inter" | "interr" | "diff" | "diffr" | "subset" | "subsetr");
+                if *reg == "gm" && algebra {
+                    for a in args.iter().step_by(2) {
+                        self.get(a)?;
+                    }
+                } else {
+                    for a in args.iter().take(if algebra { args.len() } else { 1 }) {
+                        self.get(a)?;
+                    }
+                }
+                let (var, ins, has, len, empty) = if *reg == "gm" {
+                    ("%c11-gm", "hash-insert", "hash-contains?", "hash-length", "(hash)")
+                } else {
+                    ("%c11-gs", "hashset-insert", "hashset-contains?", "hashset-length", "(hashset)")
+                };
+                let a = args.join(" ");
+                let src = match *op {
+                    "new" => format!("(define {var} {empty}) ({len} {var})"),
+                    "insert" => format!("(set! {var} ({ins} {var} {a})) ({len} {var})"),
+                    "remove" if *reg == "gm" => format!("(set! {var} (hash-remove {var} {a})) ({len} {var})"),
+                    "ref" if *reg == "gm" => format!("(hash-ref {var} {a})"),
+                    "contains" => format!("({has} {var} {a})"),
+                    "len" => format!("({len} {var})"),
+                    "union" if *reg == "gm" => format!("(set! {var} (hash-union {var} (hash {a}))) ({len} {var})"),
+                    "unionr" if *reg == "gm" => format!("(set! {var} (hash-union (hash {a}) {var})) ({len} {var})"),
+                    _ if algebra && *reg == "gs" => {
+                        let lit = format!("(hashset {a})");
+                        let (stem, lit_left) = match *op {
+                            "unionr" => ("union", true),
+                            "interr" => ("inter", true),
+                            "diffr" => ("diff", true),
+                            "subsetr" => ("subset", true),
+                            other => (other, false),
+                        };
+                        let (x, y) = if lit_left { (lit.as_str(), var) } else { (var, lit.as_str()) };
+                        match stem {
+                            "union" => format!("(set! {var} (hashset-union {x} {y})) ({len} {var})"),
+                            "inter" => format!("(set! {var} (hashset-intersection {x} {y})) ({len} {var})"),
+                            "diff" => format!("(set! {var} (hashset-difference {x} {y})) ({len} {var})"),
+                            "subset" => format!("(hashset-subset? {x} {y})"),
+                            _ => return Err("bad command".into()),
+                        }
+                    }
+                    _ => return Err("bad command".into()),
+                };
+                match self.run(src) {
+                    Ok(vals) => match vals.last() {
+                        Some(SteelVal::BoolV(b)) => Ok(format!("{reg} {b}")),
+                        Some(SteelVal::IntV(i)) if *op == "ref" => Ok(format!("{reg} ok {i}")),
+                        Some(SteelVal::IntV(i)) => Ok(format!("{reg} {i}")),
+                        other => Err(format!("unexpected answer {:?}", other.map(|v| format!("{v}")))),
+                    },
+                    Err(_) if *op == "ref" => Ok(format!("{reg} err")),
+                    Err(e) => Err(e),
+                }
             }
             ["coll", ..] => {
                 let src = l.trim_start().strip_prefix("coll").unwrap_or("").to_string();
